@@ -87,6 +87,60 @@ class Peer(object):
         return bytes(out)
 
 
+def extension_header(cfg, sp=None):
+    """Spell the negotiated parameters as a Sec-WebSocket-Extensions value."""
+    sp = sp or {}
+    params = []
+    q = '"' if sp.get("quote") else ""
+    if not (cfg["sb"] == 15 and sp.get("omit_default")):
+        params.append("server_max_window_bits%s=%s%s%s%s" % (sp.get("eq_l", ""), sp.get("eq_r", ""), q, cfg["sb"], q))
+    if not (cfg["cb"] == 15 and sp.get("omit_default")):
+        params.append("client_max_window_bits%s=%s%s%s%s" % (sp.get("eq_l", ""), sp.get("eq_r", ""), q, cfg["cb"], q))
+    if cfg["snct"]:
+        params.append("server_no_context_takeover")
+    if cfg["cnct"]:
+        params.append("client_no_context_takeover")
+    order = sp.get("order", 0)
+    if params:
+        k = order % len(params)
+        params = params[k:] + params[:k]
+        if (order // 7) % 2:
+            params.reverse()
+    sep = sp.get("semi_l", "") + ";" + sp.get("semi_r", " ")
+    return sep.join(["permessage-deflate"] + params)
+
+
+DEFAULT_CFG = {"sb": 15, "cb": 15, "snct": False, "cnct": False}
+
+
+def cfg_of(deflate):
+    """Normalise a case's ``deflate`` value (False/None/0, True/1, or a configuration dict
+    {"sb","cb","snct","cnct"[,"spelling"]}) to a configuration dict, or None if not negotiated."""
+    if not deflate:
+        return None
+    if isinstance(deflate, dict):
+        cfg = dict(DEFAULT_CFG)
+        cfg.update(deflate)
+        return cfg
+    return dict(DEFAULT_CFG)
+
+
+def peer_of(deflate):
+    cfg = cfg_of(deflate) or DEFAULT_CFG
+    return Peer(cfg["sb"], cfg["cb"], cfg["snct"], cfg["cnct"])
+
+
+def header_of(deflate):
+    """The Sec-WebSocket-Extensions value a server sends for this configuration (the plain token for
+    the default configuration without a spelling)."""
+    cfg = cfg_of(deflate)
+    if cfg is None:
+        return None
+    if cfg == DEFAULT_CFG:
+        return "permessage-deflate"
+    return extension_header(cfg, cfg.get("spelling"))
+
+
 def stored_payload(n):
     """A valid permessage-deflate payload of exactly n bytes (n == 1 or n >= 5) that
     inflates to n-5 (resp. 0) bytes of 'a', made of one stored block."""
